@@ -124,8 +124,37 @@ ShortC05(ev) ==
        \cup {[prop |-> "C05", eco |-> ev.eco, why |-> "panic", construct |-> ev.construct, text |-> ev.text, probe |-> ev.panics[i],
                got |-> FALSE, want |-> FALSE, err |-> "", known |-> "", p |-> <<>>, ivs |-> <<>>] : i \in 1..Len(ev.panics)}
 
+(* C20: membership depends only on a version's place in the order.                *)
+(*  (a) versions that compare equal are both in or both out of every range;      *)
+(*  (b) a range without alternatives and exclusions is convex: a version that    *)
+(*      is not contained has no contained version at-or-below it together with   *)
+(*      one at-or-above it (equivalent to the triple statement).                 *)
+MembersC20(ev) ==
+  LET I == 1..ev.n
+      M == ev.m
+      same(i, j) == ev.part[i] = ev.part[j]
+      eqbad(r) == {p \in I \X I : p[1] < p[2] /\ same(p[1], p[2]) /\ M[p[1]][p[2]] = 0 /\ M[p[2]][p[1]] = 0
+                                   /\ r.contains[p[1]] # r.contains[p[2]]}
+      reg == TLCEval({i \in I : ~OrderIrregular(ev.eco, S2C(ev.texts[i]))})
+      C(r) == {i \in reg : r.contains[i]}
+      cvbad(r) == IF ~r.convex THEN {}
+                  ELSE {j \in reg \ C(r) : /\ \E i \in C(r) : same(i, j) /\ M[i][j] <= 0
+                                          /\ \E k \in C(r) : same(k, j) /\ M[j][k] <= 0}
+      below(r, j) == CHOOSE i \in C(r) : same(i, j) /\ M[i][j] <= 0
+      above(r, j) == CHOOSE k \in C(r) : same(k, j) /\ M[j][k] <= 0
+  IN UNION {{[prop |-> "C20", eco |-> ev.eco, why |-> "equal-versions", text |-> ev.ranges[q].text,
+               a |-> ev.texts[p[1]], b |-> ev.texts[p[2]], c |-> "", ina |-> ev.ranges[q].contains[p[1]],
+               inb |-> ev.ranges[q].contains[p[2]], known |-> ""] : p \in eqbad(ev.ranges[q])}
+            \cup {[prop |-> "C20", eco |-> ev.eco, why |-> "convex", text |-> ev.ranges[q].text,
+               a |-> ev.texts[below(ev.ranges[q], j)], b |-> ev.texts[j], c |-> ev.texts[above(ev.ranges[q], j)],
+               ina |-> TRUE, inb |-> FALSE, known |-> ""] : j \in cvbad(ev.ranges[q])}
+            : q \in 1..Len(ev.ranges)}
+     \cup {[prop |-> "C20", eco |-> ev.eco, why |-> "panic", text |-> ev.panics[i], a |-> "", b |-> "", c |-> "",
+             ina |-> FALSE, inb |-> FALSE, known |-> ""] : i \in 1..Len(ev.panics)}
+
 Judge(ev) ==
   CASE ev.k = "matrix" /\ Prop = "C01" -> MatrixC01(ev)
+    [] ev.k = "members" /\ Prop = "C20" -> MembersC20(ev)
     [] ev.k = "short" /\ Prop = "C05" -> ShortC05(ev)
     [] ev.k = "range" /\ Prop = "C02" -> RangeC02(ev)
     [] ev.k = "matrix" /\ Prop = "C08" -> MatrixRef(ev) \cup AcceptC08(ev)
